@@ -251,7 +251,9 @@ impl Monitor for C06 {
                         }
                     }
                     let ok = pat.len() <= remain && pat[..] == f.bits[f.pos..f.pos + pat.len()];
-                    args.push(Cell::Bitstr(bits_to_bitstr(&pat)));
+                    // the pattern as a fresh value or as a slice cut out of a longer buffer (a tag read earlier and expected again)
+                    let pcell = if rng.flip() { obs.count("magic:pattern-is-slice"); crate::mon::c04::fresh_from_model(&pat, &mut rng) } else { bits_to_bitstr(&pat) };
+                    args.push(Cell::Bitstr(pcell));
                     word = "magic".into();
                     if ok {
                         advance = pat.len();
@@ -291,7 +293,8 @@ impl Monitor for C06 {
                     } else {
                         (0..8 * (1 + rng.below(2)) + if rng.chance(1, 6) { 3 } else { 0 }).map(|_| (rng.next_u64() & 1) as u8).collect()
                     };
-                    args.push(Cell::Bitstr(bits_to_bitstr(&pat)));
+                    let pcell = if rng.flip() { obs.count("find:pattern-is-slice"); crate::mon::c04::fresh_from_model(&pat, &mut rng) } else { bits_to_bitstr(&pat) };
+                    args.push(Cell::Bitstr(pcell));
                     word = "find".into();
                     let aligned = (f.lo + f.pos) % 8 == 0 && rest.len() % 8 == 0;
                     if pat.len() % 8 != 0 {
